@@ -368,8 +368,12 @@ def _show(layer, idx, tier):
     return [tuple(str(x) for x in V[i]) for i in idx]
 
 
-def check_duplicates(res, R, P, tier):
-    """allow_duplicates=True, underdetermined=None on species sets that overlap"""
+FORMULA_LIKE = ["H2O", "O3", "H2", "CO", "N2", "Fe", "C", "O2", "NO", "CH4", "Ar", "He"]
+
+
+def check_duplicates(res, R, P, tier, labels="rank"):
+    """allow_duplicates=True, underdetermined=None on species sets that overlap; labels="formula-like": the species carry names that
+    read as formulas of OTHER compositions (the caller's `substances` decide, never the label)"""
     import sympy
     from chempy import balance_stoichiometry
 
@@ -378,7 +382,7 @@ def check_duplicates(res, R, P, tier):
     V = _vec(tier)
     # species are named by their rank within this instance (n0, n1, ...): the same names come back in other instances with
     # other compositions, as they do for a caller who re-uses generic names; every call gets fresh Substance objects
-    rank = {i: "n%d" % k for k, i in enumerate(sorted(set(R) | set(P)))}
+    rank = {i: ("n%d" % k if labels == "rank" else FORMULA_LIKE[k]) for k, i in enumerate(sorted(set(R) | set(P)))}
     CK = (1, 2, 0, 3)
     subs = {}
     for i, nm in rank.items():
@@ -389,7 +393,7 @@ def check_duplicates(res, R, P, tier):
     res.transitions += 1
     res.evaluations += 1
     res.nontrivial += 1
-    case = dict(layer="D", R=list(R), P=list(P), tier=tier)
+    case = dict(layer="D", R=list(R), P=list(P), tier=tier, labels=labels)
     try:
         r, p = balance_stoichiometry(rnames, pnames, substances=subs, underdetermined=None, allow_duplicates=True)
         out = ("ok", dict(r), dict(p))
@@ -423,7 +427,8 @@ def check_duplicates(res, R, P, tier):
             v.append("wrong-exception-" + out[0][4:])
         res.outcomes["dup:" + out[0].split(" ")[0]] += 1
     for what in v:
-        res.violation("C02|duplicates|%s" % what, "balance_stoichiometry(%s -> %s, underdetermined=None, allow_duplicates=True) %s: %s [%s]" % (_show("V", R, tier), _show("V", P, tier), out[0], out[1:], what), case, out, None)
+        res.violation("C02|duplicates|%s" % what + ("" if labels == "rank" else "|formula-like-labels"), "balance_stoichiometry(%s -> %s, underdetermined=None, allow_duplicates=True%s) %s: %s [%s]" % (
+            _show("V", R, tier), _show("V", P, tier), "" if labels == "rank" else ", species labelled %r" % (rnames + pnames,), out[0], out[1:], what), case, out, None)
 
 
 # ------------------------------------------------------------------------------------------------ layers BM / TV / DF
@@ -586,7 +591,8 @@ def check_types(res, i, tname, mode):
             tname, Rc, Pc, mode, got, bad), case, got, [abs(t) for t in primitive(ns[0])] if single else None)
 
 
-SK_CASES = ["duplicate-reordered", "duplicate-same-object", "no-duplicate", "lookalike-dot:\u22c5", "lookalike-dot:\u2219", "lookalike-dot:\u2022", "hydrate-dot:..", "hydrate-dot:\u00b7"]
+SK_CASES = ["duplicate-reordered", "duplicate-same-object", "no-duplicate", "lookalike-dot:\u22c5", "lookalike-dot:\u2219", "lookalike-dot:\u2022", "hydrate-dot:..", "hydrate-dot:\u00b7",
+            "custom-keys:str:one-sided", "custom-keys:200:one-sided", "custom-keys:str:solvable", "custom-keys:200:solvable"]
 
 
 def check_substance_keys(res, which, mode):
@@ -601,7 +607,18 @@ def check_substance_keys(res, which, mode):
     res.transitions += 1
     res.evaluations += 1
     res.nontrivial += 1
-    if which.endswith("-dot:" + which.split(":")[-1]) and ":" in which:
+    if which.startswith("custom-keys:"):
+        # compositions keyed by the caller's own component names (strings, or integers that are no atomic numbers): a component present on
+        # one side only is refused with ValueError like any other infeasible placement; a solvable instance is solved
+        _, kind, what = which.split(":")
+        kx, ky = ("flour", "egg") if kind == "str" else (200, 201)
+        a = Substance("a", composition={kx: 2, ky: 1} if what == "one-sided" else {kx: 2})
+        b = Substance("b", composition={kx: 1})
+        R, P = ["a"], ["b"]
+        comp = {"a": dict(a.composition), "b": dict(b.composition)}
+        kw = dict(substances={"a": a, "b": b})
+        must_answer = what == "solvable"
+    elif which.endswith("-dot:" + which.split(":")[-1]) and ":" in which:
         dot = which.split(":", 1)[1]
         R, P = ["CuSO4%s5H2O" % dot], ["CuSO4", "H2O", "O2"]
         comp = {R[0]: {29: 1, 16: 1, 8: 9, 1: 10}, "CuSO4": {29: 1, 16: 1, 8: 4}, "H2O": {1: 2, 8: 1}, "O2": {8: 2}}
@@ -628,13 +645,15 @@ def check_substance_keys(res, which, mode):
     if r is None:
         if must_answer:
             bad = "refused a single-ray reaction"
+        elif which.startswith("custom-keys:") and got[0] != "EXC ValueError":
+            bad = "wrong exception"
     else:
-        keys = sorted({k for c in comp.values() for k in c})
+        keys = sorted({k for c in comp.values() for k in c}, key=str)
         for k in keys:
             tot = sum(sympy.sympify(p[s]) * comp[s].get(k, 0) for s in P) - sum(sympy.sympify(r[s]) * comp[s].get(k, 0) for s in R)
             if sympy.expand(tot) != 0:
                 bad = "unbalanced"
-        if bad is None and must_answer and got != ("ok", ["1", "1"], ["1", "1"]):
+        if bad is None and must_answer and got != (("ok", ["1", "1"], ["1", "1"]) if not which.startswith("custom-keys:") else ("ok", ["1"], ["2"])):
             bad = "not the unique minimal solution"
     res.outcomes["substance-keys:%s:%s" % (which.split(":")[0], "ok" if bad is None else "WRONG")] += 1
     if bad:
@@ -749,6 +768,7 @@ def run_chunk(chunk, tier):
                 k = len(set(R) & set(P))
                 if k in (1, 2) and set(R) != set(P):
                     check_duplicates(res, R, P, tier)
+                    check_duplicates(res, R, P, tier, labels="formula-like")
         res.sample(dict(layer="D", first=first, sides=[nr, np_]))
     return res
 
@@ -765,7 +785,7 @@ def replay(case):
     elif case["layer"] == "DF":
         check_duplicates_formula(res, tuple(case["R"]), tuple(case["P"]))
     elif case["layer"] == "D":
-        check_duplicates(res, tuple(case["R"]), tuple(case["P"]), tier)
+        check_duplicates(res, tuple(case["R"]), tuple(case["P"]), tier, case.get("labels", "rank"))
     else:
         mode = {"True": True, "False": False, "None": None}[case["mode"]]
         _check_instance(res, case["layer"], tuple(case["R"]), tuple(case["P"]), tier, (mode,), case.get("order", "fwd"))
